@@ -45,9 +45,6 @@ Proof.
     destruct (split_line EAll (x :: rest)) as [[l' r]|]; reflexivity.
 Qed.
 
-Definition not_lf_first (b : bytes) : bool :=
-  match b with [] => false | x :: _ => negb (x =? 10) end.
-
 Lemma split_line_render_line : forall l k rest,
   clean l = true -> (k = Ecr -> not_lf_first rest = true) ->
   split_line EAll (l ++ eol_bytes k ++ rest) = Some (l, rest).
@@ -129,4 +126,112 @@ Proof.
   apply andb_true_iff in Hc. destruct Hc as [H13 H10].
   apply negb_true_iff in H13. apply negb_true_iff in H10.
   cbn [app]. rewrite split_line_cons_plain by assumption. fold (clean t) in Ht. rewrite (IH Ht). reflexivity.
+Qed.
+
+(* ---- streams that continue: the general form ---- *)
+Lemma render_tail_not_lf_first m : forall l k t tail, wft m ((l, k) :: t) tail = true ->
+  (k <> Elf \/ l <> []) -> not_lf_first (render ((l, k) :: t) ++ tail) = true.
+Proof.
+  intros l k t tail H Hne. cbn [wft] in H. repeat (apply andb_true_iff in H; destruct H as [H ?]).
+  cbn [render]. destruct l as [|c l'].
+  - cbn [app]. destruct k; cbn; try reflexivity. destruct Hne; congruence.
+  - cbn [app not_lf_first]. cbn [clean forallb] in H. apply andb_true_iff in H. destruct H as [H _].
+    apply andb_true_iff in H. destruct H as [_ H]. exact H.
+Qed.
+
+Lemma sse_run_render_tail m : 0 <= m -> forall ls tail n n2 s,
+  wft m ls tail = true -> e_failed s = false ->
+  (sse_mu s (render ls ++ tail) < n)%nat -> (sse_mu (sse_of_lines s (map fst ls)) tail < n2)%nat ->
+  run sse (sse_step m) n s (render ls ++ tail) = run sse (sse_step m) n2 (sse_of_lines s (map fst ls)) tail.
+Proof.
+  intros Hm. induction ls as [|[l k] t IH]; intros tail n n2 s Hwf Hf Hn Hn2.
+  - cbn [render map sse_of_lines fold_left app] in *.
+    apply (run_fuel sse (sse_step m) sse_mu (sse_step_dec m)); assumption.
+  - destruct n; [lia|]. cbn [run].
+    assert (Hstep : sse_step m s (render ((l, k) :: t) ++ tail) = Adv (sse_line s l) (render t ++ tail)).
+    { unfold sse_step. rewrite Hf. unfold next_line. cbn [render]. rewrite <- !app_assoc.
+      pose proof Hwf as Hwf'. cbn [wft] in Hwf.
+      apply andb_true_iff in Hwf. destruct Hwf as [Hwf Hwt].
+      apply andb_true_iff in Hwf. destruct Hwf as [Hwf Hk].
+      apply andb_true_iff in Hwf. destruct Hwf as [Hcl Hlen].
+      rewrite split_line_render_line.
+      - apply Z.leb_le in Hlen. destruct (m <? len l) eqn:E; [apply Z.ltb_lt in E; lia|]. reflexivity.
+      - exact Hcl.
+      - intros ->. destruct t as [|[l2 k2] t2]; [exact Hk|].
+        apply (render_tail_not_lf_first m); [exact Hwt|].
+        destruct l2; [|right; discriminate]. destruct k2; [left; discriminate|discriminate|left; discriminate]. }
+    rewrite Hstep. cbn [map fst sse_of_lines fold_left].
+    apply IH.
+    + cbn [wft] in Hwf. apply andb_true_iff in Hwf. tauto.
+    + apply sse_line_not_failed. exact Hf.
+    + pose proof (sse_step_dec m _ _ _ _ Hstep). lia.
+    + exact Hn2.
+Qed.
+
+(* a stream whose last line so far ends in a bare CR: everything before is parsed, the last line
+   is held back together with its CR ... *)
+Lemma sse_of_lines_not_failed : forall lines s, e_failed s = false -> e_failed (sse_of_lines s lines) = false.
+Proof.
+  unfold sse_of_lines. induction lines as [|x xs IH]; intros s H; [exact H|].
+  cbn [fold_left]. apply IH. apply sse_line_not_failed. exact H.
+Qed.
+
+Lemma sse_trailing_cr_held m : 0 <= m -> forall ls l, wft m ls (l ++ [13]) = true ->
+  clean l = true -> len l <= m ->
+  sse_feed m (init_sse, []) (render ls ++ l ++ [13]) = (sse_of_lines init_sse (map fst ls), l ++ [13]).
+Proof.
+  intros Hm ls l Hwf Hc Hl. unfold sse_feed, feed. cbn [fst snd app].
+  rewrite (sse_run_render_tail m Hm ls (l ++ [13]) _
+             (S (sse_mu (sse_of_lines init_sse (map fst ls)) (l ++ [13]))) init_sse Hwf eq_refl);
+    [|apply Nat.lt_succ_diag_r|apply Nat.lt_succ_diag_r].
+  cbn [run]. unfold sse_step.
+  rewrite (sse_of_lines_not_failed (map fst ls) init_sse eq_refl).
+  unfold next_line. rewrite split_line_clean_none by exact Hc.
+  assert (E : ends_cr (l ++ [13]) = true) by (rewrite ends_cr_app_cons; reflexivity).
+  rewrite E. unfold len in *. rewrite app_length. cbn [length].
+  destruct (m <? _) eqn:X; [apply Z.ltb_lt in X; lia|]. reflexivity.
+Qed.
+
+(* ... and is delivered by the next receive, as one CRLF-terminated line if that starts with LF,
+   as a CR-terminated line otherwise; in both cases the outcome is the one of the whole stream *)
+Lemma sse_trailing_cr_then m : 0 <= m -> forall ls l more,
+  sse_feed_all m (init_sse, []) [render ls ++ l ++ [13]; more]
+  = sse_feed m (init_sse, []) (render ls ++ l ++ [13] ++ more).
+Proof.
+  intros Hm ls l more. rewrite sse_split_independent_init by exact Hm.
+  cbn [concat]. rewrite app_nil_r, <- !app_assoc. reflexivity.
+Qed.
+
+(* the field rules on a block of data lines: one event, lines joined by LF, one leading space
+   stripped from each value *)
+Definition data_line (v : bytes) : bytes := (100 :: 97 :: 116 :: 97 :: 58 :: 32 :: v).   (* "data: " ++ v *)
+
+Lemma sse_line_data s v : clean v = true ->
+  sse_line s (data_line v) = {| e_leid := e_leid s; e_name := e_name s; e_parts := e_parts s ++ [v];
+                                e_retry := e_retry s; e_events := e_events s; e_failed := false |}.
+Proof. intros _. reflexivity. Qed.
+
+Lemma sse_data_block : forall vs s, e_parts s = [] -> vs <> [] -> join_with [10] vs <> [] ->
+  sse_of_lines s (map data_line vs ++ [[]]) =
+  {| e_leid := e_leid s; e_name := []; e_parts := []; e_retry := e_retry s;
+     e_events := e_events s ++ [{| ev_id := e_leid s; ev_name := e_name s; ev_data := join_with [10] vs |}];
+     e_failed := false |}.
+Proof.
+  intros vs s Hp Hne Hj. unfold sse_of_lines. rewrite fold_left_app.
+  assert (G : forall vs s0, fold_left sse_line (map data_line vs) s0 =
+              match vs with
+              | [] => s0
+              | _ => {| e_leid := e_leid s0; e_name := e_name s0; e_parts := e_parts s0 ++ vs;
+                        e_retry := e_retry s0; e_events := e_events s0; e_failed := false |}
+              end).
+  { induction vs0 as [|v vs' IH]; intros s0; [reflexivity|].
+    cbn [map fold_left]. rewrite IH. change (sse_line s0 (data_line v)) with
+      {| e_leid := e_leid s0; e_name := e_name s0; e_parts := e_parts s0 ++ [v];
+         e_retry := e_retry s0; e_events := e_events s0; e_failed := false |}.
+    destruct vs'; cbn [e_leid e_name e_parts e_retry e_events]; [reflexivity|].
+    rewrite <- app_assoc. reflexivity. }
+  rewrite G. destruct vs as [|v vs']; [congruence|].
+  cbn [fold_left]. unfold sse_line at 1. cbn [is_nil e_parts e_leid e_name e_retry e_events].
+  rewrite Hp. cbn [app].
+  destruct (join_with [10] (v :: vs')) eqn:J; [congruence|]. reflexivity.
 Qed.
